@@ -22,6 +22,36 @@ class DurMsg(betterproto.Message):
     d: timedelta = betterproto.message_field(1)
 
 
+class FoldZone(__import__("datetime").tzinfo):
+    """a zone with one transition: UTC+2 before T, UTC+1 from T on, so the local hour before the transition is repeated
+    (fold = 1 in its second pass).  One instance is shared by all datetimes: two datetimes with the same wall time but
+    another fold compare and hash equal although they are an hour apart."""
+    T = datetime(2023, 10, 29, 1, 0, 0)          # the transition, in UTC
+
+    def utcoffset(self, dt):
+        wall = dt.replace(tzinfo=None)
+        if wall < self.T + timedelta(hours=1):
+            return timedelta(hours=2)
+        if wall >= self.T + timedelta(hours=2):
+            return timedelta(hours=1)
+        return timedelta(hours=2) if dt.fold == 0 else timedelta(hours=1)
+
+    def dst(self, dt):
+        return self.utcoffset(dt) - timedelta(hours=1)
+
+    def tzname(self, dt):
+        return "FOLD"
+
+    def fromutc(self, dt):
+        u = dt.replace(tzinfo=None)
+        if u < self.T:
+            return (u + timedelta(hours=2)).replace(tzinfo=self)
+        r = (u + timedelta(hours=1)).replace(tzinfo=self)
+        return r.replace(fold=1) if u < self.T + timedelta(hours=1) else r
+
+
+FOLDZONE = FoldZone()
+FOLD_T_US = 1698541200 * 10**6
 EPOCH = datetime(1970, 1, 1, tzinfo=timezone.utc)
 US = timedelta(microseconds=1)
 TS_MIN, TS_MAX = -62135596800 * 10**6, 253402300799 * 10**6 + 999999
@@ -38,6 +68,8 @@ def time_event(args):
             utc = EPOCH + timedelta(microseconds=us)
             if off is None:
                 val = utc                                # UTC-aware (betterproto's own default datetimes are aware)
+            elif off == 8888:
+                val = utc.astimezone(FOLDZONE)           # a zone with a repeated hour (the fold attribute decides the instant)
             else:
                 val = utc.astimezone(timezone(timedelta(minutes=off)))
             r = timestamp_pb2.Timestamp()
@@ -84,6 +116,11 @@ def inputs(ctx, quick):
                     out.append(("dur", us, None))
     for us in (TS_MIN, TS_MIN + 1, TS_MAX, TS_MAX - 1, 2**53, 2**53 + 1, -(2**53) - 1):
         out.append(("ts", us, None))
+    # the same wall-clock time twice, an hour apart (fold 0 / fold 1), one after the other, around the transition of FoldZone
+    for d in (-5400, -3600, -1800, -1, 0, 1, 1799, 3599):
+        for f in (0, 250000):
+            us = FOLD_T_US + d * 10**6 + f
+            out += [("ts", us, 8888), ("ts", us + 3600 * 10**6, 8888), ("ts", us, 8888)]
     for us in (DUR_MAX, -DUR_MAX, DUR_MAX - 1, -DUR_MAX + 1, 2**53 + 1, -(2**53) - 1, 2**62, -(2**62), 10**17 + 1, -10**17 - 1):
         if abs(us) <= DUR_MAX:
             out.append(("dur", us, None))
